@@ -22,6 +22,9 @@ def handle (opname : String) (a : Args) : Option String :=
         | 0 => PB.looseMajority ls | 1 => PB.looseMinority ls
         | 2 => PB.strictMajority ls | _ => PB.strictMinority ls
       pure (ok (fmtPBCs cs))) a
+  | "both" => run (do
+      let o ← op; let k ← int; let ls ← ints
+      pure (ok (fmtClauses (Linear.add ls o k) ++ " || " ++ fmtPBCs (PB.add ls o k)))) a
   | "normopb" => run (do let o ← op; let k ← int; let ts ← pairs; pure (ok (fmtPBC (PB.normalize ⟨ts, o, k⟩)))) a
   | _ => none
 
